@@ -250,7 +250,22 @@ func runTotal(deadline time.Duration, fn func() (interface{}, error)) totalOutco
 	}
 }
 
-func totalRuns(text string, params map[string]interface{}) [3]totalOutcome {
+// a parse that does not return cannot be stopped: its goroutine keeps a core busy. After a few
+// such cases the remaining ones are not run any more (the first ones are the report).
+var totalHangCases int
+
+func totalRuns(text string, params map[string]interface{}) (out [3]totalOutcome) {
+	if totalHangCases >= 3 {
+		return [3]totalOutcome{{"skipped", ""}, {"skipped", ""}, {"skipped", ""}}
+	}
+	defer func() {
+		for _, o := range out {
+			if o.kind == "hang" {
+				totalHangCases++
+				break
+			}
+		}
+	}()
 	deadline := 5*time.Second + time.Duration(len(text))*50*time.Microsecond
 	mk := func() *influxql.Parser {
 		p := influxql.NewParser(strings.NewReader(text))
@@ -325,7 +340,7 @@ func genTotalExpr(r *rand.Rand, n int, emit func(args ...string)) {
 }
 
 func init() {
-	register(&stream{name: "total.bytes", gen: genTotalBytes, impl: implTotalBytes, prop: propTotalBytes,
+	register(&stream{name: "total.bytes", gen: genTotalBytes, impl: implTotalBytes, prop: propTotalBytes, propTimeout: 40 * time.Minute,
 		class:      func(args []string, out string) string { return out },
 		nontrivial: func(args []string, out string) bool { return len(args[0]) > 10 }})
 	register(&stream{name: "total.expr", gen: genTotalExpr, impl: implParseExpr,
